@@ -10,7 +10,8 @@
    = every Exec of the history names the row's primary key and the index keys of its old
    and new contents, and every explicit Set stores what the database holds. *)
 From Coq Require Import List ZArith Bool NArith.
-From GZ Require Import C06.Model C06.Proofs C06.GenProofs C06.ProofsB.
+From GZ Require Import C06.Model C06.Proofs C06.GenProofs C06.ProofsB C06.ProofsC C06.Codec C06.CodecProofs.
+From GZ Require C07.Model C06.ProofsD.
 Import ListNotations.
 Open Scope Z_scope.
 
@@ -157,8 +158,95 @@ Theorem load_suppression : forall c s p t n,
 Proof. exact load_suppression_lemma. Qed.
 Print Assumptions load_suppression.
 
+(* Load suppression against the interleaving model of SingleFlight (C07.Model: threads are scripts
+   of calls [mkOp GSF key val err] = barrier.DoEx(key, fn) whose fn - for C06: doTake's closure
+   GET / database query / SETEX, at most ONE query by [one_query_per_operation] - returns
+   (val, err) if it runs; a schedule is any list of thread ids).  For every set of readers, every
+   key and every schedule: (1) at most one closure, hence at most one database query, is in
+   progress per key; (2) every read that returned got the (val, err) of one run of the closure,
+   led by a reader of the same key; it ran its own closure iff it is that leader, and then once;
+   a reader that shared the run made no query and joined while the leader's call was still in
+   progress; (3) readers that shared a run got identical results and only one of them ran it. *)
+Theorem load_suppression_singleflight : forall scripts sched k,
+  let s := C07.Model.exec scripts sched in
+  (C07.Model.running C07.Model.GSF k s <= 1)%nat /\
+  (forall t th r o,
+     nth_error (C07.Model.threads s) t = Some th -> In r (C07.Model.tres th) ->
+     nth_error (C07.Model.tscript th) (C07.Model.rop r) = Some o ->
+     C07.Model.ogrp o = C07.Model.GSF -> C07.Model.okey o = k ->
+     let c := C07.Model.heap s (C07.Model.rcid r) in
+     exists thL oL,
+       nth_error (C07.Model.threads s) (fst (C07.Model.clead c)) = Some thL /\
+       nth_error (C07.Model.tscript thL) (snd (C07.Model.clead c)) = Some oL /\
+       C07.Model.ogrp oL = C07.Model.GSF /\ C07.Model.okey oL = k /\
+       (C07.Model.rval r, C07.Model.rerr r) = (C07.Model.oval oL, C07.Model.oerr oL) /\
+       (C07.Model.rfresh r = true -> C07.Model.clead c = (t, C07.Model.rop r) /\ C07.Model.rruns r = 1%nat) /\
+       (C07.Model.rfresh r = false ->
+          fst (C07.Model.clead c) <> t /\ C07.Model.rruns r = 0%nat /\
+          (C07.Model.cinvt c <= C07.Model.rjoin r)%nat /\
+          exists rt, C07.Model.cret c = Some rt /\ (C07.Model.rjoin r < rt)%nat)) /\
+  (forall t1 t2 th1 th2 r1 r2 o1 o2,
+     nth_error (C07.Model.threads s) t1 = Some th1 -> nth_error (C07.Model.threads s) t2 = Some th2 ->
+     In r1 (C07.Model.tres th1) -> In r2 (C07.Model.tres th2) ->
+     nth_error (C07.Model.tscript th1) (C07.Model.rop r1) = Some o1 ->
+     nth_error (C07.Model.tscript th2) (C07.Model.rop r2) = Some o2 ->
+     C07.Model.ogrp o1 = C07.Model.GSF -> C07.Model.ogrp o2 = C07.Model.GSF ->
+     C07.Model.rcid r1 = C07.Model.rcid r2 ->
+     (C07.Model.rval r1, C07.Model.rerr r1) = (C07.Model.rval r2, C07.Model.rerr r2) /\
+     (C07.Model.rfresh r1 = true -> C07.Model.rfresh r2 = true -> t1 = t2 /\ C07.Model.rop r1 = C07.Model.rop r2)).
+Proof. exact C06.ProofsD.load_suppression_sf_lemma. Qed.
+Print Assumptions load_suppression_singleflight.
+
+(* History level: after any TIDY history (disciplined; every Exec finds the nodes of its keys up
+   and names, with a primary key, that row's index key; no explicit Set / SetWithExpire / Del)
+   every live index entry u -> p has its primary entry in the store, expiring at least the safe
+   gap later (or never), that entry is live, and the database row of p has index value u.
+   (Without "tidy" a late retry of the cleaner or an explicit Del may delete a reloaded primary
+   entry and leave the index entry: harmless for coherence, see ProofsC.v.) *)
+Theorem index_outlived_history : forall c rows ops,
+  NoDup (map fst rows) -> tidy c (init rows) ops = true ->
+  let s := final c (init rows) ops in
+  forall u p xi, find (KU u) (cache s) = Some (mkEntry (CPk p) (Some xi)) -> clock s < xi ->
+    (exists e', find (KP p) (cache s) = Some e' /\
+                (eexp e' = None \/ exists xp, eexp e' = Some xp /\ xi + 1000 * safe_gap <= xp)) /\
+    lookup (clock s) (cache s) (KP p) <> None /\
+    exists w, db_get p (db s) = Some (u, w).
+Proof. exact index_outlived_history_lemma. Qed.
+Print Assumptions index_outlived_history.
+
+(* The primary key on its way through the index cache (Codec.v): what keyer / primaryQuery are
+   handed on the index-HIT path (jsonx.Unmarshal with UseNumber into *any of the marshalled
+   native key) prints, with %v, exactly like the native key they were handed on the index-MISS
+   path - so both paths compute the same primary cache key and look up the same row - for EVERY
+   int64 and every string (no 2^53 limit, "007" stays "007"); its dynamic type is json.Number
+   resp. string, never float64. *)
+Theorem primary_key_roundtrip : forall g, native g ->
+  fmt_v (through_cache g) = fmt_v g /\
+  match g with
+  | VInt64 z => through_cache g = VNumber z
+  | VString bs => through_cache g = VString bs
+  | _ => False
+  end.
+Proof. exact (fun g H => conj (roundtrip_lemma g H) (roundtrip_type_lemma g H)). Qed.
+Print Assumptions primary_key_roundtrip.
+
+(* Model.v identifies a primary key with an integer (an int64 with itself, a string with [scode]
+   of its bytes): distinct keys of a table are distinct integers, so every theorem above holds
+   for string-keyed tables and for the whole int64 range alike. *)
+Theorem pk_identification_injective : forall str t1 t2 p,
+  tcode str t1 = Some p -> tcode str t2 = Some p -> t1 = t2.
+Proof. exact tcode_inj. Qed.
+Print Assumptions pk_identification_injective.
+
+(* float64 is exact on integers up to 2^53 and a "normalisation" of the decoded key through
+   float64 is invisible there - and only there (Pinned.index_hit_float_normalised_refuted) *)
+Theorem float64_detour_invisible_up_to_2_53 : forall z, Z.abs z <= 2 ^ 53 ->
+  round53 z = z /\ fmt_v (normalize_float (through_cache (VInt64 z))) = fmt_v (VInt64 z).
+Proof. exact (fun z H => conj (round53_small z H) (normalize_float_small z H)). Qed.
+Print Assumptions float64_detour_invisible_up_to_2_53.
+
 (* ------------------------------------------------------------------ non-vacuity *)
-Definition ex_cfg : config := mkCfg (100 * sec) (10 * sec) [(KP 1, 1)].
+Definition ex_cfg : config := mkCfg (100 * sec) (10 * sec) [(KP 1, 1)] false.
 Definition ex_rows : table := [(1, (7, 41)); (2, (8, 5))].
 (* load, index load, write with invalidation on two nodes, an outage that comes and goes,
    time passing, a failed invalidation of ANOTHER key repaired by the cleaner *)
@@ -193,3 +281,19 @@ Example ex_index_load :
   step ex_cfg (init ex_rows) (OQri 8 97)
   = (fst (step ex_cfg (init ex_rows) (OQri 8 97)), mkObs (RRow 2 8 5) 1 0).
 Proof. vm_compute. reflexivity. Qed.
+
+(* a tidy history with an index load: the hypothesis of [index_outlived_history] is satisfiable
+   and its conclusion talks about a live pair *)
+Example ex_tidy :
+  tidy ex_cfg (init ex_rows) [OTake 1 100; OQri 8 97; OExec 1 (Some (7, 42)) [KP 1; KU 7]; OAdv 3000; OQri 7 95] = true /\
+  let s := final ex_cfg (init ex_rows) [OTake 1 100; OQri 8 97; OExec 1 (Some (7, 42)) [KP 1; KU 7]; OAdv 3000; OQri 7 95] in
+  find (KU 7) (cache s) = Some (mkEntry (CPk 1) (Some 98000)) /\ clock s < 98000.
+Proof. vm_compute. repeat split. Qed.
+
+(* keys beyond 2^53 and string keys that look like numbers are native keys with distinct codes *)
+Example ex_codec :
+  native (VInt64 (2 ^ 53 + 1)) /\ native (VString [48; 48; 55]) /\
+  gcode false (through_cache (VInt64 (2 ^ 53 + 1))) = Some (2 ^ 53 + 1) /\
+  gcode true (through_cache (VString [48; 48; 55])) = Some (scode [48; 48; 55]) /\
+  scode [48; 48; 55] <> scode [55] /\ gcode false (VString [55]) = None.
+Proof. vm_compute. repeat split; discriminate. Qed.
